@@ -24,7 +24,7 @@ fn examples(c: &Corpus) -> Vec<Vec<(String, String)>> {
         .collect()
 }
 
-fn obs(input: &[u8]) -> (String, String) {
+pub fn obs(input: &[u8]) -> (String, String) {
     match guarded(|| Corpus::from_reader(input)) {
         None => ("panic".to_string(), "na".to_string()),
         Some(Err(_)) => ("err".to_string(), "na".to_string()),
